@@ -35,6 +35,23 @@ fn last_of(cfg: &Cfg, ops: &[Op]) -> Option<Out> {
     .ok()
 }
 
+/// True when the forgotten part of the history (everything before the last n inputs) contains a value
+/// further from the window's mean than 8 times anything inside the window (a flat window makes every
+/// different earlier value an outlier: C08 grants sqrt(tau)*M there).
+fn evicted_outlier(full: &[Op], n: usize) -> bool {
+    let suffix = &full[full.len() - n.min(full.len())..];
+    let close = |o: &Op| match o {
+        Op::S(x) => *x,
+        Op::B(b) => b.c,
+        Op::Reset => 0.0,
+    };
+    let k = suffix.len().max(1) as f64;
+    let mean = suffix.iter().map(close).sum::<f64>() / k;
+    let dev_s = suffix.iter().map(|o| (close(o) - mean).abs()).fold(0.0, f64::max);
+    let dev_p = full[..full.len() - suffix.len()].iter().map(|o| (close(o) - mean).abs()).fold(0.0, f64::max);
+    dev_p > 8.0 * dev_s
+}
+
 fn compare(cfg: &Cfg, full: &[Op], suffix: &[Op], a: &Out, b: &Out, out: &mut JobOut) -> bool {
     let t = full.len();
     let m = full.iter().map(|o| o.maxmag()).fold(0.0, f64::max);
@@ -52,18 +69,25 @@ fn compare(cfg: &Cfg, full: &[Op], suffix: &[Op], a: &Out, b: &Out, out: &mut Jo
                 }
             }
             Kind::Sd => {
-                if !((a.v[0] * a.v[0] - b.v[0] * b.v[0]).abs() <= tl * m * m) {
-                    why = Some(format!("variance diff {:.3e} > tau(t)*M^2={:.3e}", (a.v[0] * a.v[0] - b.v[0] * b.v[0]).abs(), tl * m * m));
+                // the statement's tau(t)*M on the value itself; the sqrt-amplified rounding residue of an
+                // EVICTED OUTLIER is measured the way C01 and C08 measure it (as a variance, tau(t)*M^2)
+                let literal = (a.v[0] - b.v[0]).abs() <= tl * m;
+                let as_var = (a.v[0] * a.v[0] - b.v[0] * b.v[0]).abs() <= tl * m * m;
+                if !(literal || (as_var && evicted_outlier(full, cfg.p[0]))) {
+                    why = Some(format!("|diff|={:.3e} > tau(t)*M={:.3e} (variance diff {:.3e}, tau(t)*M^2={:.3e}, evicted outlier: {})", (a.v[0] - b.v[0]).abs(), tl * m, (a.v[0] * a.v[0] - b.v[0] * b.v[0]).abs(), tl * m * m, evicted_outlier(full, cfg.p[0])));
                 }
             }
             Kind::Bb => {
                 if !((a.v[0] - b.v[0]).abs() <= tl * m) {
                     why = Some("average differs".into());
                 }
+                let k = cfg.mult.abs().max(1.0);
                 for j in [1usize, 2] {
                     let (ha, hb) = (a.v[j] - a.v[0], b.v[j] - b.v[0]);
-                    if !((ha * ha - hb * hb).abs() <= tl * m * m * (cfg.mult * cfg.mult).max(1.0)) {
-                        why = Some("band half-width (as variance) differs".into());
+                    let literal = (ha - hb).abs() <= tl * m * k;
+                    let as_var = (ha * ha - hb * hb).abs() <= tl * m * m * k * k;
+                    if !(literal || (as_var && evicted_outlier(full, cfg.p[0]))) {
+                        why = Some(format!("band half-width differs by {:.3e} > tau(t)*M*|mult|={:.3e}", (ha - hb).abs(), tl * m * k));
                     }
                 }
             }
@@ -124,9 +148,13 @@ pub fn run(ctx: &Ctx) -> CheckResult {
     let th = ctx.tier_thorough;
     let dp = if th { 4 } else { 3 };
     let extra = if th { 2 } else { 1 };
-    let base = [1.0, 2.0, 4.0, 7.0];
+    let base_lo = [1.0, 2.0, 4.0, 7.0];
     // prefix alphabet: ordinary values + spikes 10^6 and 10^3 times larger + a negative spike
-    let pre_vals: [f64; 9] = [1.0, 4.0, 7.0, 1e6, 7e6, -3e6, 2e3, 1.0e9, 3.7e10];
+    let pre_lo: [f64; 9] = [1.0, 4.0, 7.0, 1e6, 7e6, -3e6, 2e3, 1.0e9, 3.7e10];
+    // a high price level with a spread 10^9 times smaller (no outlier anywhere): formulas that
+    // subtract two large accumulated quantities (sum of squares minus squared sum) lose everything here
+    let base_hl = [1.0e7, 1.0e7 + 0.01, 1.0e7 + 0.02, 1.0e7 - 0.03];
+    let pre_hl: [f64; 5] = [1.0e7, 1.0e7 + 0.01, 1.0e7 + 0.02, 1.0e7 - 0.03, 1.0e7 + 0.05];
     let mut cfgs = vec![];
     for n in 1..=4usize {
         for k in [Kind::Sma, Kind::Wma, Kind::Sd, Kind::Mad, Kind::Min, Kind::Max, Kind::FastStoch, Kind::Cci, Kind::Roc, Kind::Er, Kind::Mfi] {
@@ -134,17 +162,21 @@ pub fn run(ctx: &Ctx) -> CheckResult {
         }
         cfgs.push(Cfg::pm(Kind::Bb, n, 2.0));
     }
-    let mut jobs: Vec<(Cfg, usize)> = vec![];
+    let mut jobs: Vec<(Cfg, usize, bool)> = vec![];
     for c in &cfgs {
         for l in 0..=extra {
-            jobs.push((*c, c.kind.window(c).unwrap() + l));
+            jobs.push((*c, c.kind.window(c).unwrap() + l, false));
+            if matches!(c.kind, Kind::Sma | Kind::Wma | Kind::Sd | Kind::Mad | Kind::Bb) {
+                jobs.push((*c, c.kind.window(c).unwrap() + l, true));
+            }
         }
     }
     jobs.sort_by_key(|j| std::cmp::Reverse(j.1));
-    let outs = par_run(ctx, &jobs, |_, (cfg, slen)| {
+    let outs = par_run(ctx, &jobs, |_, (cfg, slen, hl)| {
         let mut out = JobOut::default();
         let mut prefixes: Vec<Vec<u8>> = vec![];
-        let dpk = if cfg.kind == Kind::Mfi && ctx.tier_thorough { dp + 1 } else { dp };
+        let (base, pre_vals): (&[f64], &[f64]) = if *hl { (&base_hl, &pre_hl) } else { (&base_lo, &pre_lo) };
+        let dpk = if (cfg.kind == Kind::Mfi && ctx.tier_thorough && cfg.p[0] <= 2) || *hl { dp + 1 } else { dp };
         for_each_seq(pre_vals.len(), None, dpk, |s| {
             prefixes.push(s.to_vec());
             true
